@@ -80,6 +80,8 @@ type World struct {
 	rootWake chan struct{}
 
 	last     *Task
+	seq      int64
+	siteHits map[string]int
 	step     int
 	epoch    int
 	preempt  int
@@ -177,6 +179,22 @@ func (w *World) State(name string) {
 	w.mu.Unlock()
 }
 
+// SiteHits returns how often a schedule point site was reached so far (an
+// observation seam: e.g. how many publishes got past their cache update).
+func (w *World) SiteHits(site string) int {
+	w.mu.Lock()
+	defer w.mu.Unlock()
+	return w.siteHits[site]
+}
+
+// Seq returns the next global event sequence number (history stamps).
+func (w *World) Seq() int64 {
+	w.mu.Lock()
+	defer w.mu.Unlock()
+	w.seq++
+	return w.seq
+}
+
 // ParkedAt counts the tasks currently parked at a schedule point site.
 func (w *World) ParkedAt(site string) int {
 	w.mu.Lock()
@@ -214,6 +232,7 @@ func (w *World) yield(site string) {
 	}
 	t.site = site
 	t.nParks++
+	w.siteHits[site]++
 	w.parked = append(w.parked, t)
 	w.mu.Unlock()
 	select {
@@ -435,7 +454,7 @@ func Run(t *testing.T, tape *Tape, cfg RunConfig, sc Scenario) (res *Result) {
 		cfg.Grace = 2 * time.Minute
 	}
 	w := &World{Tape: tape, cfg: cfg, PanicClass: "PANIC", tasks: map[uint64]*Task{}, hash: fnvOff, sig: fnvOff,
-		faults: map[string]int{}, probes: map[string]int{}, states: map[string]int{}}
+		siteHits: map[string]int{}, faults: map[string]int{}, probes: map[string]int{}, states: map[string]int{}}
 	res = &Result{}
 	var alive []AliveTask
 	func() {
